@@ -305,7 +305,7 @@ impl Monitor for M {
                 "bounded progress: at most 1000 end-of-file events per load (hook counter) and at most 10 s thread CPU time; wall-clock 300 s only as an inconclusive watchdog",
                 "documents are below 100 KiB and load in milliseconds",
             ],
-            &[("damage.truncate.refused", super::scaled(ctx, 10000)), ("damage.delete_end_tag.refused", 500), ("damage.delete_element.model", 500), ("damage.undamaged.model", 100), ("context.in_pdu", super::scaled(ctx, 2000)), ("context.in_frame", super::scaled(ctx, 2000)), ("context.in_instance", super::scaled(ctx, 2000)), ("context.in_tag", super::scaled(ctx, 2000)), ("hook.eof_returns", super::scaled(ctx, 10000)), ("truncation.documents_finished", 10)],
+            &[("damage.truncate.refused", super::scaled(ctx, 10000)), ("damage.delete_end_tag.refused", 500), ("damage.delete_element.model", 500), ("damage.undamaged.model", 10), ("context.in_pdu", super::scaled(ctx, 2000)), ("context.in_frame", super::scaled(ctx, 2000)), ("context.in_instance", super::scaled(ctx, 2000)), ("context.in_tag", super::scaled(ctx, 2000)), ("hook.eof_returns", super::scaled(ctx, 10000)), ("truncation.documents_finished", 10)],
         )
     }
 }
